@@ -71,7 +71,7 @@ func buildMalformedUpdate(r *simrt.Rand, pc PeerCfg, dut DUTCfg, pfx Prefix, tag
 		a.MED = u32p(5)
 	}
 	spec := UpdateSpec{Announce: []NLRI{{Prefix: pfx}}, Attrs: a.Attrs(v6), V6: v6, ASN4: pc.PeerASN4}
-	kind := r.Intn(13)
+	kind := r.Intn(15)
 	var m malformedUpdate
 	switch kind {
 	case 8:
@@ -169,6 +169,28 @@ func buildMalformedUpdate(r *simrt.Rand, pc PeerCfg, dut DUTCfg, pfx Prefix, tag
 		raw[alOff], raw[alOff+1] = byte(al>>8), byte(al)
 		raw[16], raw[17] = byte(len(raw)>>8), byte(len(raw))
 		m.why, m.class = fmt.Sprintf("attribute %d (fixed size 4) declared and carried with length %d", code, raw[off+2]), "attr_length"
+	case 13, 14:
+		// AS_PATH whose segment announces one AS number more than the attribute's declared length
+		// holds; the octets of that AS number follow the attribute (counted neither in the attribute
+		// length nor in the total path attribute length): a decoder driven by the segment count alone
+		// reads past the attribute and stays aligned
+		off := findAttr(raw[attrStart:attrStart+al], AttrASPath)
+		if off < 0 {
+			return m, false
+		}
+		off += attrStart
+		if raw[off]&0x10 != 0 || raw[off+2] < 2 {
+			return m, false
+		}
+		raw[off+4]++ // segment count
+		end := off + 3 + int(raw[off+2])
+		extra := []byte{0, 0, 0xfd, 0xe7}
+		if !pc.PeerASN4 {
+			extra = extra[2:]
+		}
+		raw = append(raw[:end:end], append(extra, raw[end:]...)...)
+		raw[16], raw[17] = byte(len(raw)>>8), byte(len(raw))
+		m.why, m.class = "AS_PATH segment count runs past the attribute's declared length", "attr_length"
 	case 11, 12:
 		// a zero-length attribute (ATOMIC_AGGREGATE) declared and carried with octets: appended as
 		// the last attribute, its value either noise or something that reads like one more NLRI
